@@ -162,6 +162,26 @@ def oracle(ctx, widen=1):
                 bad = f"|UB.hkl| = {np.linalg.norm(UBc @ got)} but (4 pi/lambda) sin(theta) = {4 * pi / wl * sin(th)} at {p}"
                 break
             if rng.random() < 0.4:
+                # ONE Position object, moved through its setters between two evaluations (a scan does exactly this): each answer is for the angles the
+                # object holds at that moment
+                P = Position(*[float(x) + 1.25 for x in pa])      # angles not seen by this calculator before
+                try:
+                    hc.get_hkl(P, wl)
+                    if rng.random() < 0.5:
+                        hc.get_virtual_angles(P)
+                    nm = rng.choice(["mu", "delta", "nu", "eta", "chi", "phi"])
+                    setattr(P, nm, getattr(P, nm) + rng.choice([10.0, -33.0, 0.5, 90.0]))
+                    moved = np.array(hc.get_hkl(P, wl), float)
+                    refm = fwd(UBc, tuple(float(x) for x in P.astuple), wl)
+                except Exception as e:  # noqa
+                    bad = f"get_hkl on a Position object moved through its setters raised {type(e).__name__}: {e}"
+                    break
+                kinds.add((seq, "moved-object"))
+                if np.abs(moved - refm).max() > 1e-9 * (1 + np.abs(refm).max()):
+                    bad = (f"get_hkl of ONE Position object evaluated at {tuple(round(x, 4) for x in p)}, then moved by its {nm} setter to {tuple(round(float(x), 4) for x in P.astuple)}: "
+                           f"{moved.tolist()}, the forward model gives {refm.tolist()}")
+                    break
+            if rng.random() < 0.4:
                 # the caller owns what the public helpers hand out: scribbling on the six matrices of this position (or on the result)
                 # must not reach any later evaluation
                 from diffcalc.hkl.geometry import get_rotation_matrices
